@@ -1270,3 +1270,70 @@ def select_target_cases(P, res):
                      f'get_target_name(target), whether it is an aggregate), in order; got [{got}]', loc(fi))
     if ok:
         res.ok({'site': fi.fq, 'name': 'get_target_name(target)', 'order': 'as written'})
+
+
+# ----------------------------------------------------------------------
+# R-FROMAND (C01, C13): the FROM condition and the WHERE condition are both required of a row
+
+def rule_fromand(P) -> RuleResult:
+    res = RuleResult('R-FROMAND')
+    res.exhaustive = True
+    fi = _method(P, '_compile_select')
+    SEL = Sym('SELECT_NODE')
+    F, W = Sym('C_FROM'), Sym('C_WHERE')
+    ok = True
+    for has_from in (False, True):
+        for has_where in (False, True):
+            got = {}
+
+            def on_call(fn, fv, rc, a, k, ex, nd):
+                f = str(fn).split('.')[-1]
+                if f == '_compile_from':
+                    return F if has_from else None
+                if f == '_compile_targets':
+                    return SList([Sym('TARGET')])
+                if f == '_compile':
+                    return W if has_where else None
+                if f == 'is_aggregate':
+                    return False
+                if f == '_compile_group_by':
+                    return T('tuple', (SList(), None, None))
+                if f == '_compile_order_by':
+                    return T('tuple', (SList(), None))
+                if f == '_compile_pivot_by':
+                    return None
+                if f == 'EvalAnd':
+                    return T('new', ('EvalAnd', a))
+                if f == 'EvalQuery':
+                    names = ['table', 'c_targets', 'c_where']
+                    d = dict(zip(names, a))
+                    d.update(dict(k))
+                    got['where'] = d.get('c_where', 'MISSING')
+                    return T('new', ('EvalQuery', a))
+                return NotImplemented
+
+            def on_attr(base, attr, ex):
+                if base == Sym('TARGET') and attr == 'is_aggregate':
+                    return False
+                return NotImplemented
+            for p in Engine(P, on_call=on_call, on_attr=on_attr).paths(fi, {'self': SELF, fi.params[1]: SEL}):
+                v = got.get('where', 'MISSING')
+                if has_from and has_where:
+                    good = isinstance(v, T) and v.op == 'new' and v.args[0] == 'EvalAnd' and len(v.args[1]) == 1 and \
+                        isinstance(v.args[1][0], SList) and not v.args[1][0].opaque_tail and sorted(map(repr, v.args[1][0].items)) == sorted(map(repr, [F, W]))
+                    want = 'EvalAnd([from condition, where condition])'
+                elif has_from:
+                    good, want = v == F, 'the FROM condition'
+                elif has_where:
+                    good, want = v == W, 'the WHERE condition'
+                else:
+                    good, want = v is None, 'no condition'
+                if p.outcome != 'return' or not good:
+                    ok = False
+                    res.fail(fi.fq, f'fromand:{int(has_from)}{int(has_where)}', f'FROM condition {"present" if has_from else "absent"}, WHERE '
+                             f'{"present" if has_where else "absent"}: the row condition of the query must be {want} (a row is selected iff '
+                             f'both conditions are true of it; the WHERE condition goes in as one operand, whatever its own top-level '
+                             f'operator); got `{show(v)[:100]}`', loc(fi))
+    if ok:
+        res.ok({'function': fi.fq, 'cases': 4, 'row_condition': 'FROM AND WHERE, each as one operand'})
+    return res
